@@ -121,7 +121,7 @@ Proof.
   - change (is_ t (Multi g es)) with (same (Multi g es) t || existsb (is_ t) es).
     rewrite same_plain_flat by auto. simpl. rewrite existsb_flat_map. apply existsb_ext_in.
     simpl in Hw. rewrite forallb_forall in Hw. rewrite Forall_forall in *. intros x Hx. apply H; auto.
-  - change (is_ t (Stk g es)) with (same (Stk g es) t || chain_is t (is_ t) es).
+  - change (is_ t (Stk g n es)) with (same (Stk g n es) t || chain_is t (is_ t) es).
     rewrite same_plain_flat by auto. simpl.
     simpl in Hw. rewrite forallb_forall in Hw.
     assert (Hp : Forall (fun c => plain c = true) es).
@@ -143,8 +143,8 @@ Proof.
   destruct (supplied es) as [|c [|d cs]] eqn:E.
   - apply is_Nil; assumption.
   - simpl. rewrite orb_false_r. reflexivity.
-  - change (is_ t (Stk tag (rev (c :: d :: cs)))) with
-      (same (Stk tag (rev (c :: d :: cs))) t || chain_is t (is_ t) (rev (c :: d :: cs))).
+  - change (is_ t (Stk tag (Z.of_nat (length (c :: d :: cs))) (rev (c :: d :: cs)))) with
+      (same (Stk tag (Z.of_nat (length (c :: d :: cs))) (rev (c :: d :: cs))) t || chain_is t (is_ t) (rev (c :: d :: cs))).
     rewrite same_plain_flat by auto. rewrite chain_is_plain by (auto using Forall_rev').
     rewrite orb_false_l. apply existsb_rev.
 Qed.
@@ -187,7 +187,7 @@ Proof.
   - change (is_ t (Multi g es)) with (same (Multi g es) t || existsb (is_ t) es).
     simpl nodes. simpl existsb. f_equal. rewrite existsb_flat_map. apply existsb_ext_in.
     simpl in Hw. rewrite forallb_forall in Hw. rewrite Forall_forall in *. intros x Hx. apply H; auto.
-  - change (is_ t (Stk g es)) with (same (Stk g es) t || chain_is t (is_ t) es).
+  - change (is_ t (Stk g n es)) with (same (Stk g n es) t || chain_is t (is_ t) es).
     simpl nodes. simpl existsb. f_equal.
     simpl in Hw. rewrite forallb_forall in Hw.
     assert (Hpl : Forall (fun c => plain c = true) es).
@@ -259,8 +259,8 @@ Proof.
     replace (assignable k (Multi g es)) with false by (destruct k; reflexivity).
     rewrite first_as_spec. simpl constituents. rewrite first_some_flat_map. apply first_some_ext_in.
     simpl in Hw. rewrite forallb_forall in Hw. rewrite Forall_forall in *. intros x Hx. apply H; auto.
-  - change (as_ k (Stk g es)) with (if assignable k (Stk g es) then Some (Stk g es) else chain_as (as_ k) es).
-    replace (assignable k (Stk g es)) with false by (destruct k; reflexivity).
+  - change (as_ k (Stk g n es)) with (if assignable k (Stk g n es) then Some (Stk g n es) else chain_as (as_ k) es).
+    replace (assignable k (Stk g n es)) with false by (destruct k; reflexivity).
     simpl in Hw. rewrite forallb_forall in Hw.
     assert (Hp : Forall (fun c => plain c = true) es).
     { apply Forall_forall. intros x Hx. specialize (Hw x Hx). apply andb_true_iff in Hw. tauto. }
@@ -276,9 +276,9 @@ Proof.
   destruct (supplied es) as [|c [|d cs]] eqn:E.
   - apply as_nil.
   - simpl. destruct (as_ k c); reflexivity.
-  - change (as_ k (Stk tag (rev (c :: d :: cs)))) with
-      (if assignable k (Stk tag (rev (c :: d :: cs))) then Some (Stk tag (rev (c :: d :: cs))) else chain_as (as_ k) (rev (c :: d :: cs))).
-    replace (assignable k (Stk tag (rev (c :: d :: cs)))) with false by (destruct k; reflexivity).
+  - change (as_ k (Stk tag (Z.of_nat (length (c :: d :: cs))) (rev (c :: d :: cs)))) with
+      (if assignable k (Stk tag (Z.of_nat (length (c :: d :: cs))) (rev (c :: d :: cs))) then Some (Stk tag (Z.of_nat (length (c :: d :: cs))) (rev (c :: d :: cs))) else chain_as (as_ k) (rev (c :: d :: cs))).
+    replace (assignable k (Stk tag (Z.of_nat (length (c :: d :: cs))) (rev (c :: d :: cs)))) with false by (destruct k; reflexivity).
     apply chain_as_plain, Forall_rev'. assumption.
 Qed.
 
@@ -312,8 +312,8 @@ Proof.
     + inv Hv. destruct (Hx v eq_refl) as [H1 H2]. split; [assumption|]. simpl. right. apply in_or_app. auto.
     + apply IH in Hv as [H1 H2]. split; [assumption|]. simpl. right. apply in_or_app. right.
       simpl in H2. destruct H2 as [H2|H2]; [subst v; destruct k; discriminate|assumption].
-  - change (as_ k (Stk g es)) with (if assignable k (Stk g es) then Some (Stk g es) else chain_as (as_ k) es).
-    replace (assignable k (Stk g es)) with false by (destruct k; reflexivity).
+  - change (as_ k (Stk g n es)) with (if assignable k (Stk g n es) then Some (Stk g n es) else chain_as (as_ k) es).
+    replace (assignable k (Stk g n es)) with false by (destruct k; reflexivity).
     intros Hv. simpl nodes.
     induction H as [|x l Hx _ IH]; [discriminate|].
     change (chain_as (as_ k) (x :: l)) with
@@ -393,7 +393,7 @@ Proof.
     intros t Ht Hw. rewrite go_is_plain by assumption.
     rewrite (existsb_ext_in _ (is_ t)) by (apply Forall_forall; intros; apply go_is_plain; assumption).
     rewrite is_supplied, E by assumption.
-    change (is_ t (Stk tag (rev (c :: cs)))) with (same (Stk tag (rev (c :: cs))) t || chain_is t (is_ t) (rev (c :: cs))).
+    change (is_ t (Stk tag (Z.of_nat (length (c :: cs))) (rev (c :: cs)))) with (same (Stk tag (Z.of_nat (length (c :: cs))) (rev (c :: cs))) t || chain_is t (is_ t) (rev (c :: cs))).
     rewrite same_plain_flat by auto. rewrite chain_is_plain by (auto using Forall_rev'). rewrite orb_false_l. apply existsb_rev.
 Qed.
 
@@ -419,6 +419,74 @@ Proof.
   destruct e; simpl; split; intros H; try discriminate; try (inv H; discriminate).
   - constructor; [reflexivity|]. apply IH. assumption.
   - inv H. apply IH. assumption.
+Qed.
+
+(* ------------------------------------------------------------------ Ok / Wrap / RemoveOk / inner layers *)
+
+(* Wrap returns nil exactly for an operand that reports Ok, and such an operand holds nothing *)
+Theorem wrap_nil_iff tag ann e : wrap tag ann e = Nil <-> ok e = true.
+Proof.
+  unfold wrap. destruct (ok e) eqn:E; split; intros H; try reflexivity; try discriminate.
+  exfalso. apply (join_not_nil tag [e; Ptr ann] (Ptr ann)); [simpl; auto|reflexivity|assumption].
+Qed.
+
+(* an operand that still holds constituents is never dropped: the result is non-nil and Unwind lists the
+   annotation and then every constituent of the operand, most recent first *)
+Theorem wrap_keeps tag ann e :
+  constituents e <> [] ->
+  wrap tag ann e <> Nil /\ unwind (wrap tag ann e) = Ptr ann :: rev (constituents e).
+Proof.
+  intros H. assert (Hok : ok e = false).
+  { destruct (ok e) eqn:E; [apply ok_no_constituents in E; contradiction|reflexivity]. }
+  split; [intros Hn; apply wrap_nil_iff in Hn; congruence|].
+  unfold wrap. rewrite Hok. assert (Hs : supplied [e; Ptr ann] = constituents e ++ [Ptr ann]).
+  { unfold supplied. simpl. reflexivity. }
+  rewrite unwind_join; rewrite Hs.
+  - rewrite rev_app_distr. reflexivity.
+  - rewrite app_length. simpl. destruct (constituents e); [contradiction|simpl; lia].
+Qed.
+
+Theorem wrap_is tag ann e t :
+  plain t = true -> wf e = true -> ok e = false ->
+  go_is (wrap tag ann e) t = go_is e t || same (Ptr ann) t.
+Proof.
+  intros Ht Hw Hok. unfold wrap. rewrite Hok. rewrite is_join_iff by (repeat constructor; assumption).
+  simpl. rewrite orb_false_r. f_equal. rewrite go_is_plain by assumption. simpl. rewrite orb_false_r. reflexivity.
+Qed.
+
+(* RemoveOk / Append drop only operands that hold nothing: joining what they keep is joining everything *)
+Theorem join_remove_ok tag es : join tag (remove_ok es) = join tag es.
+Proof. rewrite !join_spec, supplied_remove_ok. reflexivity. Qed.
+
+Theorem remove_ok_keeps es e : In e es -> constituents e <> [] -> In e (remove_ok es).
+Proof.
+  intros Hi Hc. apply filter_In. split; [assumption|]. unfold is_error.
+  destruct (ok e) eqn:E; [apply ok_no_constituents in E; contradiction|reflexivity].
+Qed.
+
+(* the inner layer of an aggregate (errors.Unwrap of a stack of >= 2 errors): its count is 0, yet it is not Ok,
+   it holds everything but the most recent constituent, and Wrap / Join of it lose nothing *)
+Theorem inner_layer_kept tag g n es :
+  wf (Stk g n es) = true -> (2 <= length es)%nat ->
+  let inner := unwrap1 tag (Stk g n es) in
+  value_len inner = 0 /\ ok inner = false /\ unwind inner = tl es /\ supplied [inner] = tl es
+  /\ (forall tag' ann, wrap tag' ann inner <> Nil /\ unwind (wrap tag' ann inner) = Ptr ann :: rev (tl es))
+  /\ (forall tag', join tag' [inner] <> Nil).
+Proof.
+  intros Hw Hl. cbv zeta. destruct (unwrap1_stack tag g n es Hw Hl) as [Hu Hc]. rewrite Hu in *.
+  assert (Hne : tl es <> []) by (destruct es as [|x [|y r]]; simpl in *; try lia; discriminate).
+  assert (Hp : Forall (fun c => plain c = true) (tl es)).
+  { rewrite <- Hc. apply constituents_plain. }
+  split; [reflexivity|]. split.
+  { simpl. destruct (tl es); [contradiction|]. unfold chain_ok. rewrite andb_false_r. reflexivity. }
+  split; [apply unwind_stk_plain; assumption|].
+  split; [unfold supplied; simpl flat_map; rewrite app_nil_r; exact Hc|].
+  split.
+  - intros tag' ann. destruct (wrap_keeps tag' ann (Stk tag 0 (tl es))) as [A B]; [rewrite Hc; assumption|].
+    rewrite Hc in B. split; assumption.
+  - intros tag' Hn. apply join_nil_iff in Hn.
+    assert (Hs : supplied [Stk tag 0 (tl es)] = tl es) by (unfold supplied; simpl flat_map; rewrite app_nil_r; exact Hc).
+    rewrite Hs in Hn. contradiction.
 Qed.
 
 (* ------------------------------------------------------------------ programs *)
@@ -447,23 +515,23 @@ Example ex_nested :
   let a := Const 2 in let b := Ptr 100 in let c := Typed 1 210 in let w := Wrap1 7 (Const 3) in
   let inner := join 1 [a; Nil; b] in
   let m := Multi 2 [c; Nil; w] in
-  let r := join 3 [Nil; inner; m; Stk 4 []] in
-  r = Stk 3 [w; c; a; b]
+  let r := join 3 [Nil; inner; m; Stk 4 0 []] in
+  r = Stk 3 4 [w; c; a; b]
   /\ unwind r = [w; c; a; b]
   /\ go_is r (Const 3) = true /\ go_is r (Const 4) = false /\ go_is r b = true
   /\ go_as r (KTyped 1) = Some c /\ go_as r (KTyped 2) = None /\ go_as r KConst = Some (Const 3)
   /\ wf r = true.
 Proof. vm_compute. repeat split. Qed.
 
-Example ex_single : join 9 [Nil; Multi 1 [Nil; Stk 2 [Wrap1 3 (Ptr 5)]]; Nil] = Wrap1 3 (Ptr 5).
+Example ex_single : join 9 [Nil; Multi 1 [Nil; Stk 2 1 [Wrap1 3 (Ptr 5)]]; Nil] = Wrap1 3 (Ptr 5).
 Proof. reflexivity. Qed.
 
-Example ex_nil : join 9 [Nil; Multi 1 [Nil; Stk 2 []]; Stk 3 []] = Nil.
+Example ex_nil : join 9 [Nil; Multi 1 [Nil; Stk 2 0 []]; Stk 3 0 []] = Nil.
 Proof. reflexivity. Qed.
 
 Example ex_panic_marked :
   panics (PErr (Ptr 100)) = true /\ avoids_error_slice (PErr (Ptr 100)) = true
-  /\ parse_panic 1 (PErr (Ptr 100)) = Stk 1 [ErrRecoveredPanic; Ptr 100].
+  /\ parse_panic 1 (PErr (Ptr 100)) = Stk 1 2 [ErrRecoveredPanic; Ptr 100].
 Proof. repeat split. Qed.
 
 Example ex_collector :
@@ -471,8 +539,18 @@ Example ex_collector :
   coll_len c = 4 /\ unwind (coll_resolve 5 c) = [Wrap1 2 (Const 4); Const 3; Const 2; Ptr 100].
 Proof. vm_compute. repeat split. Qed.
 
+Example ex_inner_layer :
+  let st := join 1 [Const 2; Ptr 100; Typed 1 210] in
+  let inner := unwrap1 5 st in
+  st = Stk 1 3 [Typed 1 210; Ptr 100; Const 2]
+  /\ inner = Stk 5 0 [Ptr 100; Const 2] /\ ok inner = false
+  /\ wrap 6 7 inner = Stk 6 3 [Ptr 7; Const 2; Ptr 100]
+  /\ unwrap1 8 inner = Stk 8 0 [Const 2] /\ unwrap1 9 (unwrap1 8 inner) = Nil
+  /\ join 9 (remove_ok [Nil; inner; Stk 3 0 []]) = Stk 9 2 [Const 2; Ptr 100].
+Proof. vm_compute. repeat split. Qed.
+
 Example ex_wf_needed :
   (* why is_join_iff asks for well-formed operands: a chain with a nil in the middle cannot be built by the API *)
-  let bad := Stk 1 [Const 2; Nil; Const 3] in
+  let bad := Stk 1 3 [Const 2; Nil; Const 3] in
   wf bad = false /\ go_is bad (Const 3) = false /\ go_is (join 2 [bad; Ptr 100]) (Const 3) = true.
 Proof. vm_compute. repeat split. Qed.
